@@ -72,6 +72,11 @@ type codeCfg struct {
 	ghostFields [][2]string
 	// named func types T for which the prelude defines `call_T`: only values of these types can be called
 	callFuncs map[string]bool
+	// package-level functions without effects to translate as pure functions of their arguments
+	funcs []string
+	// a pointer to a string or to one of `structs` is an `Option` (nil = none); a parameter of pointer type is taken to be
+	// non-nil and stands for the value itself
+	ptrOption bool
 }
 
 type unsupported struct{ why string }
@@ -117,6 +122,9 @@ func (g *goTranslator) leanType(t types.Type) string {
 	}
 	if a, ok := t.(*types.Alias); ok {
 		return g.leanType(types.Unalias(a))
+	}
+	if n, ok := t.(*types.Named); ok && n == g.recvT {
+		return g.cfg.recvType
 	}
 	if n, ok := t.(*types.Named); ok && n.Obj().Pkg() != nil && n.Obj().Pkg() == g.pkg.Types {
 		for _, sn := range g.cfg.structs {
@@ -171,6 +179,9 @@ func (g *goTranslator) leanType(t types.Type) string {
 	case *types.Pointer:
 		if n, ok := u.Elem().(*types.Named); ok && n == g.recvT {
 			return g.cfg.recvType
+		}
+		if g.cfg.ptrOption {
+			return "Option " + g.leanTypeAtom(u.Elem())
 		}
 	}
 	bad("type %s has no Lean counterpart in this subset", t.String())
@@ -236,6 +247,8 @@ type mctx struct {
 	loopElem  string
 	calls     map[string]bool // methods of the receiver this method calls
 	retOpt    bool            // inside the body of a range loop: `return x` is `some x`, falling through is `none`
+	pure      bool            // a package-level function without a receiver: results only
+	plainPtr  map[string]bool // parameters of pointer type: taken to be non-nil, they stand for the value
 	envValue  bool            // the value being stored is itself an environment object (a parameter of interface type)
 	loopState []string        // inside the body of a general range loop: the variables it threads (nil outside)
 	retType   string          // Lean type of the method's results
@@ -445,9 +458,15 @@ func (m *mctx) expr(e ast.Expr) string {
 					xt = p.Elem()
 				}
 				if n, ok := xt.(*types.Named); ok && n.Obj().Pkg() == m.g.pkg.Types && len(sel.Index()) == 1 {
-					for _, sn := range m.g.cfg.structs {
+					for _, sn := range append(append([]string{}, m.g.cfg.structs...), m.g.cfg.recvType) {
 						if n.Obj().Name() == sn {
-							return m.atom(x.X) + "." + leanIdent(x.Sel.Name)
+							base := m.atom(x.X)
+							if _, isPtr := tv.Type.(*types.Pointer); isPtr && m.g.cfg.ptrOption {
+								if id, isId := x.X.(*ast.Ident); !isId || !m.plainPtr[id.Name] {
+									base = "(GoSem.deref " + base + ")" // Go dereferences implicitly (and panics on nil)
+								}
+							}
+							return base + "." + leanIdent(x.Sel.Name)
 						}
 					}
 				}
@@ -505,6 +524,12 @@ func (m *mctx) expr(e ast.Expr) string {
 			}
 		}
 		bad("composite literal")
+	case *ast.StarExpr:
+		// `*p` for a pointer that is an Option. NOT represented: a nil dereference panics in Go; here the zero value comes out
+		if m.g.cfg.ptrOption {
+			return "(GoSem.deref " + m.atom(x.X) + ")"
+		}
+		bad("pointer dereference")
 	case *ast.UnaryExpr:
 		switch x.Op {
 		case token.NOT:
@@ -523,6 +548,16 @@ func (m *mctx) expr(e ast.Expr) string {
 				fe = x.Y
 			}
 			if fe != nil {
+				if tv, ok := m.g.info.Types[fe]; ok && m.g.cfg.ptrOption {
+					if _, isPtr := tv.Type.(*types.Pointer); isPtr {
+						if id, isId := fe.(*ast.Ident); !isId || !m.plainPtr[id.Name] {
+							if x.Op == token.NEQ {
+								return "(" + m.atom(fe) + ").isSome"
+							}
+							return "(" + m.atom(fe) + ").isNone"
+						}
+					}
+				}
 				if se, ok := fe.(*ast.SelectorExpr); ok && m.isRecv(se.X) {
 					if f, isEnv := m.envField(fe); isEnv {
 						t := leanIdent(m.recv) + "." + leanIdent(f) + ".isNil"
@@ -1153,6 +1188,10 @@ func (m *mctx) stmts(list []ast.Stmt, tail func() string, ind string) string {
 			m.flush(&b, ind)
 			if len(x.Results) == 0 {
 				vals = append([]string{}, m.results...)
+			}
+			if m.pure && m.loopState == nil && !m.retOpt {
+				b.WriteString(ind + tuple(vals) + "\n")
+				return b.String()
 			}
 			rv := tuple(vals)
 			if m.panics {
@@ -1954,7 +1993,7 @@ func translateType(repo string, cfg codeCfg) (string, error) {
 			out.WriteString(fmt.Sprintf("/-- `type %s struct` of the source, field by field -/\nstructure %s where\n", sn, sn))
 			for i := 0; i < sst.NumFields(); i++ {
 				f := sst.Field(i)
-				out.WriteString(fmt.Sprintf("  %s : %s\n", leanIdent(f.Name()), g.leanType(f.Type())))
+				out.WriteString(fmt.Sprintf("  %s : %s\n", leanIdent(f.Name()), g.fieldType(f.Type())))
 			}
 			out.WriteString("  deriving Inhabited\n\n")
 		}
@@ -2009,6 +2048,29 @@ func translateType(repo string, cfg codeCfg) (string, error) {
 			}
 			methods = append(methods, mo)
 		}
+	}
+	// package-level pure functions
+	var pureNames []string
+	for _, fnm := range cfg.funcs {
+		var found *ast.FuncDecl
+		for _, file := range pkg.Syntax {
+			for _, d := range file.Decls {
+				if fd, ok := d.(*ast.FuncDecl); ok && fd.Recv == nil && fd.Name.Name == fnm {
+					found = fd
+				}
+			}
+		}
+		if found == nil {
+			untranslated[fnm] = "function not found"
+			continue
+		}
+		txt, err := g.funcPure(found)
+		if err != nil {
+			untranslated[fnm] = err.Error()
+			continue
+		}
+		out.WriteString(txt + "\n")
+		pureNames = append(pureNames, fnm)
 	}
 	// constructors: `func F(params) R { return &T{k: v, …} }` — the fields not named get their zero value
 	for _, cn := range cfg.ctors {
@@ -2102,9 +2164,12 @@ func translateType(repo string, cfg codeCfg) (string, error) {
 		out.WriteString(fmt.Sprintf("  (%s, %s)%s\n", leanStr(n), leanStr(untranslated[n]), sep))
 	}
 	out.WriteString("]\n\n/-- the translated methods, in the order of this file -/\ndef translated : List String := [")
-	q := make([]string, len(order))
-	for i, n := range order {
-		q[i] = leanStr(n)
+	q := make([]string, 0, len(order)+len(pureNames))
+	for _, n := range pureNames {
+		q = append(q, leanStr(n))
+	}
+	for _, n := range order {
+		q = append(q, leanStr(n))
 	}
 	out.WriteString(strings.Join(q, ", ") + "]\n\nend " + cfg.namespace + "\n")
 	return out.String(), nil
@@ -2192,6 +2257,68 @@ func (g *goTranslator) method(fd *ast.FuncDecl) (mo *methodOut, err error) {
 	b.WriteString(initRes.String())
 	b.WriteString(body)
 	return &methodOut{name: fd.Name.Name, text: b.String(), calls: m.calls, pos: fd.Pos()}, nil
+}
+
+// funcPure: a package-level function without effects, as a function of its arguments
+func (g *goTranslator) funcPure(fd *ast.FuncDecl) (txt string, err error) {
+	defer func() {
+		if r := recover(); r != nil {
+			if u, ok := r.(unsupported); ok {
+				txt, err = "", fmt.Errorf("%s", u.why)
+				return
+			}
+			panic(r)
+		}
+	}()
+	m := &mctx{g: g, recv: "\x00", aliases: map[string]string{}, aliasPre: map[string]string{}, calls: map[string]bool{}, pure: true, plainPtr: map[string]bool{}}
+	var params []string
+	for _, f := range fd.Type.Params.List {
+		pt := g.info.Types[f.Type].Type
+		if p, ok := pt.(*types.Pointer); ok && g.cfg.ptrOption {
+			pt = p.Elem()
+			for _, n := range f.Names {
+				m.plainPtr[n.Name] = true
+			}
+		}
+		t := g.leanTypeAtom(pt)
+		for _, n := range f.Names {
+			params = append(params, fmt.Sprintf("(%s : %s)", leanIdent(n.Name), t))
+		}
+	}
+	var resT []string
+	var initRes strings.Builder
+	if fd.Type.Results != nil {
+		for _, f := range fd.Type.Results.List {
+			t := g.leanType(g.info.Types[f.Type].Type)
+			if len(f.Names) == 0 {
+				resT = append(resT, t)
+				continue
+			}
+			for _, n := range f.Names {
+				resT = append(resT, t)
+				m.results = append(m.results, leanIdent(n.Name))
+				initRes.WriteString(fmt.Sprintf("  let %s : %s := %s;\n", leanIdent(n.Name), t, zeroOf(t)))
+			}
+		}
+	}
+	ret := "Unit"
+	if len(resT) > 0 {
+		ret = strings.Join(resT, " × ")
+	}
+	m.retType = ret
+	tail := func() string {
+		if len(resT) > 0 && len(m.results) == 0 {
+			bad("control reaches the end of a function with unnamed results")
+		}
+		return tuple(m.results)
+	}
+	body := m.stmts(fd.Body.List, tail, "  ")
+	if len(m.calls) > 0 {
+		bad("a pure function that calls methods")
+	}
+	pos := g.pkg.Fset.Position(fd.Pos())
+	return fmt.Sprintf("/-- `func %s` (%s:%d) -/\ndef %s %s : %s :=\n%s%s", fd.Name.Name, relBase(pos.Filename), pos.Line,
+		leanIdent(fd.Name.Name), strings.Join(params, " "), ret, initRes.String(), body), nil
 }
 
 func (g *goTranslator) ctor(fd *ast.FuncDecl) (txt string, err error) {
